@@ -441,31 +441,49 @@ func run(c *vf.Ctx) {
 					if gitAns[e.parent] != "unresolved" {
 						v.Why = "prefix " + exprs[e.parent].s + " agrees (" + gitAns[e.parent][:8] + ")"
 					}
-					switch {
-					case len(e.sfx) >= 2 && e.sfx[len(e.sfx)-2] == "^{}":
-						// known parser mechanism: the token that follows "^{}" is swallowed (parseCaretBraces reads one
-						// token ahead and does not push it back), so X^{}~ is evaluated as X^{} and X^{}^^ as X^{}^
+					explained := false
+					if len(e.sfx) >= 2 && e.sfx[len(e.sfx)-2] == "^{}" {
+						// parser mechanism (fixed upstream, kept as a recogniser): the token that follows "^{}" is
+						// swallowed, so X^{}~ is evaluated as X^{} and X^{}^^ as X^{}^
 						altS := strings.TrimSuffix(exprs[e.parent].s, "^{}") + last[1:]
 						alt, aerr := repo.ResolveRevision(plumbing.Revision(altS))
 						if aerr == nil && alt != nil && alt.String() == v.GoGit {
 							cause = "parser:token-after-empty-braces-dropped"
 							v.Why += "; go-git evaluates it like " + altS
+							explained = true
 						}
-					case strings.HasPrefix(last, "^{/") && gitAns[e.parent] != "unresolved":
-						// known mechanism: first match in depth-first pre-order instead of git's youngest-first walk
-						if start, ok := idIndex[gitAns[e.parent]]; ok {
-							re, rerr := regexp.Compile(strings.TrimPrefix(strings.TrimPrefix(strings.TrimSuffix(last, "}"), "^{/"), "!-"))
-							neg := strings.HasPrefix(last, "^{/!-")
-							if rerr == nil {
-								match := func(i int) bool { return re.MatchString(hx.Commits[i].Msg) != neg }
-								dfs := firstDFS(hx, start, match)
-								young := firstYoungest(hx, start, match)
-								if dfs >= 0 && idsx[dfs] == v.GoGit && (young >= 0 && idsx[young] == gitAns[i] || young < 0 && gitAns[i] == "unresolved") && dfs != young {
-									cause = "caret-regex:first-match-in-depth-first-order-instead-of-youngest"
-									if neg {
-										cause = "caret-negated-regex:first-match-in-depth-first-order-instead-of-youngest"
-									}
-								}
+					}
+					if !explained && strings.HasPrefix(last, "^{/") && gitAns[e.parent] != "unresolved" {
+						// A regex step, whatever precedes it. Judged on its own terms against the history model, from
+						// the commit both sides agree the prefix resolves to:
+						//  - known deviation: go-git's result satisfies the step (matches / does not match the regex)
+						//    and is reachable from the start, but is not the YOUNGEST such commit (which git returns);
+						//  - anything else keeps a distinct key.
+						neg := strings.HasPrefix(last, "^{/!-")
+						fam := "caret-regex"
+						if neg {
+							fam = "caret-negated-regex"
+						}
+						start, okS := idIndex[gitAns[e.parent]]
+						gi, okG := idIndex[v.GoGit]
+						re, rerr := regexp.Compile(strings.TrimPrefix(strings.TrimPrefix(strings.TrimSuffix(last, "}"), "^{/"), "!-"))
+						if okS && rerr == nil {
+							match := func(i int) bool { return re.MatchString(hx.Commits[i].Msg) != neg }
+							young := firstYoungest(hx, start, match)
+							reach := reachSet(hx, start)
+							modelGit := "unresolved"
+							if young >= 0 {
+								modelGit = idsx[young]
+							}
+							switch {
+							case !okG || !reach[gi]:
+								cause = fam + ":result-not-reachable-from-start"
+							case !match(gi):
+								cause = fam + ":result-does-not-satisfy-the-regex-step"
+							case modelGit != gitAns[i]:
+								cause = fam + ":history-model-disagrees-with-git" // classification aid only; still reported
+							case gi != young:
+								cause = fam + ":first-match-in-depth-first-order-instead-of-youngest"
 							}
 						}
 					}
@@ -527,6 +545,21 @@ func anyObjects(objType map[string]string, prefix string) int {
 		}
 	}
 	return n
+}
+
+func reachSet(h *gen.History, start int) map[int]bool {
+	seen := map[int]bool{}
+	st := []int{start}
+	for len(st) > 0 {
+		x := st[len(st)-1]
+		st = st[:len(st)-1]
+		if seen[x] {
+			continue
+		}
+		seen[x] = true
+		st = append(st, h.Commits[x].Parents...)
+	}
+	return seen
 }
 
 // firstDFS: first commit satisfying match in depth-first pre-order (parents in recorded order), start included.
